@@ -10,6 +10,15 @@ NOTE = ("Trusted: Coq 8.16.1 kernel + vm_compute; no axioms (Print Assumptions r
 
 # id -> (claimed?, level text, technique, design_ref, partial note)
 CLAIMS = {
+ "C18": ("Coq theorem C18_refines: for every operation sequence (any length) over a live and a staging store, both backends' "
+         "model returns exactly what the abstract (issuer, serial)-keyed map returns, under the no-hash-collision hypothesis the "
+         "property grants; key injectivity and reserved-key disjointness proved from the source-generated separator/keys; plus "
+         "operation sequences run on the real MapStore and LevelDbStore and compared with the model (observations and raw key bytes).",
+         "Coq refinement proof (hashed store -> abstract map) + op-sequence correspondence on both real backends", "DESIGN.md §3 C18", ""),
+ "C09": ("Coq theorems C09_fault_is_error / C09_undecodable_is_error / C09_not_revoked_only_if_absent over the store model; "
+         "plus injected lookup-time faults on the real backends (closed DB, corrupted and truncated records, removed directory) "
+         "compared with the model and with the property's own wording.",
+         "Coq proof over the store model + fault-injection correspondence", "DESIGN.md §3 C09", ""),
  "C03": ("Coq theorems C03_table/C03_enabled/C03_iff/C03_effects over a model whose mode table, enable predicates and "
          "VerifyClientCertificate stage list are regenerated from the Go source on every run; plus an exhaustive 1536-cell "
          "table of real handshakes evaluated against the model (vm_compute) and against the property's own wording.",
